@@ -2,10 +2,12 @@ module verif/harness
 
 go 1.23
 
-require github.com/go-fed/activity v0.0.0
+require (
+	github.com/go-fed/activity v0.0.0
+	github.com/go-fed/httpsig v0.1.1-0.20190914113940-c2de3672e5b5
+)
 
 require (
-	github.com/go-fed/httpsig v0.1.1-0.20190914113940-c2de3672e5b5 // indirect
 	golang.org/x/crypto v0.0.0-20180527072434-ab813273cd59 // indirect
 	golang.org/x/sys v0.0.0-20180525142821-c11f84a56e43 // indirect
 )
